@@ -52,6 +52,13 @@ def service_machine(rng, machine=False):
         nodes[0].on.append((ev, [Trans(next(tid), 0, ev, tgt)]))
     nodes[work].on.append(("RE", [Trans(next(tid), work, "RE", work, reenter=True)]))
     nodes[0].on.append(("SLOW", [Trans(next(tid), 0, "SLOW", None, actions=[("slow", next(mark), rng.choice([150, 250, 450, 950]))])]))
+    # exit actions on the invoking state: the state's tasks are cancelled BEFORE its exit actions run, so a service that would
+    # complete while a slow exit action is under way never delivers anything (third-round seeded change C09-C swapped the two)
+    r = rng.random()
+    if r < 0.3:
+        nodes[work].exit = [("slow", next(mark), rng.choice([150, 250, 450, 950]))]
+    elif r < 0.5:
+        nodes[work].exit = [("mark", next(mark))]
     return am
 
 
@@ -112,6 +119,8 @@ def monitor(am, engine, cx, events, snaps):
     owners = {inv.iid: n.idx for n in am.nodes for inv in n.invoke}
     active = set()
     must_fail = None
+    cur_begin = 0
+    earlier = {}          # owner -> [(entered at, begin of the event during which it was left)] of its finished activations
     for i_, o in enumerate(log):
         if o[0] == "begin" and i_ + 1 < len(log) and log[i_ + 1][0] == "clock":
             now = log[i_ + 1][1]        # the clock stamp of an event follows its `begin` record
@@ -122,6 +131,7 @@ def monitor(am, engine, cx, events, snaps):
             active.add(o[1])
         elif o[0] == "leave":
             active.discard(o[1])
+            earlier.setdefault(o[1], []).append((entered_at.get(o[1], 0), cur_begin))
         elif o[0] == "svc":
             # a failure nobody handles puts the machine into the error status (sync engine: the service runs inline)
             cands = [(n.idx, inv) for n in am.nodes for inv in n.invoke if inv.iid == o[1] and n.idx in active and inv.src]
@@ -134,6 +144,7 @@ def monitor(am, engine, cx, events, snaps):
                 out.append(("service %s started %d times in one activation of its state" % (o[1], starts[key]), None))
         elif o[0] == "begin":
             entered_before, act_before = dict(entered_at), dict(act_no)
+            cur_begin = now
             # the failure of a service whose (only active) invoke declares no onError is being delivered: the machine must
             # end up in the error status
             if isinstance(o[1], str) and o[1].startswith("error.platform."):
@@ -153,9 +164,17 @@ def monitor(am, engine, cx, events, snaps):
             if engine == "async":
                 t_enter = entered_before.get(owner)
                 if t_enter is not None and now - t_enter < inv.dur:
+                    # finding F9 explains this only if some earlier activation had its result ready (queued) when the event that
+                    # left it started: then the completion event sat in the queue behind the leave and the re-entry.  A service
+                    # that was still running when its state's exit began is cancelled by that exit and must deliver nothing.
+                    # (invoke ids may be reused by other states: the event is matched by id only, so any of them can be its origin)
+                    queued_before_exit = any(t0 + i2.dur <= tl for n2 in am.nodes for i2 in n2.invoke if i2.iid == inv.iid
+                                             for t0, tl in earlier.get(n2.idx, []))
                     out.append(("the completion of service %s (takes %d ms) was handled at t=%d although its state %d was (re-)entered at "
-                                "t=%d: the result belongs to an earlier activation" % (inv.iid, inv.dur, now, owner, t_enter),
-                                dict(kind="stale-completion", cause="done-invoke-matched-by-src-and-type-only")))
+                                "t=%d: the result belongs to an earlier activation%s"
+                                % (inv.iid, inv.dur, now, owner, t_enter,
+                                   "" if queued_before_exit else " that was still running when it was exited (exit cancels the service)"),
+                                dict(kind="stale-completion", cause="done-invoke-matched-by-src-and-type-only") if queued_before_exit else None))
     if must_fail is not None and snaps[-1]["status"] == 1 and not any(o[0] == "err" for o in log):
         out.append(("service %s of state %d failed and its invoke declares no onError, but the machine is still running: an unhandled "
                     "service failure must put the machine into the error status" % (must_fail[1], must_fail[0]), None))
